@@ -36,7 +36,12 @@ func runCmd(dir string, name string, args ...string) (string, error) {
 
 // runExtract regenerates lean/JSight/Gen/*.lean from /repo's working tree.
 // It returns the list of problems (untranslatable constructs).
+// extractNotes: constructs the translator could not render that do NOT break an obligation (the table concerned is
+// declared unavailable and the tie falls back to the correspondence): recorded in the evidence.
+var extractNotes []string
+
 func runExtract() []string {
+	extractNotes = nil
 	bin := filepath.Join(verifDir(), "bin", "extract")
 	out, err := runCmd(verifDir(), bin, "-repo", repoDir(), "-out", filepath.Join(leanDir(), "JSight", "Gen"),
 		"-facts", filepath.Join(verifDir(), "gen", "facts.json"))
@@ -44,6 +49,9 @@ func runExtract() []string {
 	for _, l := range strings.Split(out, "\n") {
 		if strings.HasPrefix(l, "PROBLEM ") {
 			probs = append(probs, strings.TrimPrefix(l, "PROBLEM "))
+		}
+		if strings.HasPrefix(l, "NOTE ") {
+			extractNotes = append(extractNotes, strings.TrimPrefix(l, "NOTE "))
 		}
 	}
 	if err != nil && len(probs) == 0 {
@@ -183,6 +191,11 @@ func obligations(ctx *Ctx, pc *propCheck) {
 				continue
 			}
 			ctx.Break("extract: " + p)
+		}
+		for _, n := range extractNotes {
+			if strings.HasPrefix(n, "paramtable: ") && usesParamTable[ctx.Prop] {
+				ctx.Cov.Notes = append(ctx.Cov.Notes, "the regenerated table of AppendParameter is NOT available on this tree (Gen.paramTableAvailable = false: its theorems hold vacuously; the model of AppendParameter is tied by its correspondence alone): "+n)
+			}
 		}
 		targets := append([]string{}, pc.lean...)
 		buildOK := true
